@@ -133,7 +133,7 @@ def _addr_table(ctx, little, addr, fmt64=False):
     return sec, base, addrs
 
 
-def _v5_block(ctx, little, addr, fmt64, lists, with_table, nm='blk'):
+def _v5_block(ctx, little, addr, fmt64, lists, with_table, nm='blk', table_order=None):
     """one unit block of .debug_loclists/.debug_rnglists: header, optional offset table, lists back to back.
     lists: list of byte lists.  -> (bytes, dict(list offsets relative to block start, table_off, header fields))"""
     offsz = 8 if fmt64 else 4
@@ -148,10 +148,12 @@ def _v5_block(ctx, little, addr, fmt64, lists, with_table, nm='blk'):
         offs.append(pos)
         body += l
         pos += len(l)
-    table = sum([enc.enc_int(o - table_off, offsz, little) for o in offs], []) if with_table else []
+    # the offset table is an index -> list mapping: it need not follow the storage order of the lists
+    tab_offs = [offs[i] for i in table_order] if (with_table and table_order) else offs
+    table = sum([enc.enc_int(o - table_off, offsz, little) for o in tab_offs], []) if with_table else []
     n = len(hdr) + len(table) + len(body)
     pre = ([0xff] * 4 + enc.enc_int(n, 8, little)) if fmt64 else enc.enc_int(n, 4, little)
-    return pre + hdr + table + body, dict(offs=offs, table_off=table_off, unit_length=n, count=cnt, size=len(pre) + n, after_length=len(pre))
+    return pre + hdr + table + body, dict(offs=offs, tab_offs=tab_offs, table_off=table_off, unit_length=n, count=cnt, size=len(pre) + n, after_length=len(pre))
 
 
 def _mk_cu(ctx, little, addr, ver, fmt64, attrs, addr_base=None, extra_secs=None, dies=None, abbrev_off=0):
@@ -310,7 +312,8 @@ def h_blocks(ctx):
             l, want, raw = gen_v5_list(ctx, 'b%dl%d' % (b, i), little, addr, kinds, loc, addrs)
             lists.append(l)
             raws.append(raw)
-        blk, info = _v5_block(ctx, little, addr, fmt64, lists, with_table)
+        order = list(reversed(range(nlists))) if cfg.get('reversed_table') else None
+        blk, info = _v5_block(ctx, little, addr, fmt64, lists, with_table, table_order=order)
         info.update(start=len(sec), raws=raws, fmt64=fmt64)
         blocks.append(info)
         sec += blk
@@ -328,7 +331,7 @@ def h_blocks(ctx):
         ctx.check_eq(label + '/header', [h.cu_offset, h.unit_length, h.is64, h.version, h.address_size, h.offset_count, h.offset_table_offset, h.offset_after_length],
                      [w['start'], w['unit_length'], w['fmt64'], 5, addr, w['count'], w['start'] + w['table_off'], w['start'] + w['after_length']])
         if w['count']:
-            ctx.check_eq(label + '/offsets', list(h.offsets), [o - w['table_off'] for o in w['offs']])
+            ctx.check_eq(label + '/offsets', list(h.offsets), [o - w['table_off'] for o in w['tab_offs']])
         else:
             ctx.check(label + '/no-offsets', not h.offsets)
         if not loc:
@@ -409,6 +412,21 @@ def h_enum(ctx):
     ctx.check_eq(label + '/visited-count', len(got), len(want_idx))
     if len(got) != len(want_idx):
         return
+    if cfg.get('mixed'):
+        # with both generations of a list section present the DWARFInfo hands out a pair that dispatches on the unit's version
+        pair = di.location_lists() if loc else di.range_lists()
+        ctx.check_eq('enum/pair/type', type(pair).__name__, 'LocationListsPair' if loc else 'RangeListsPair')
+        unit0 = next(di.iter_CUs())
+        kids = list(unit0.get_top_DIE().iter_children())
+        for kd, r in zip(kids, refs):
+            if loc:
+                via_pair = pair.get_location_list_at_offset(offs[r], kd)
+                direct = lists.get_location_list_at_offset(offs[r], kd)
+            else:
+                via_pair = pair.get_range_list_at_offset(offs[r], unit0)
+                direct = lists.get_range_list_at_offset(offs[r], unit0)
+            ctx.check_eq(label + '/pair/same-list-as-the-section-object', [tuple(x) for x in via_pair], [tuple(x) for x in direct])
+            ctx.check_eq(label + '/pair/list-length', len(via_pair), len(ls[r][1]))
     for g, r in zip(got, want_idx):
         nv = 0
         if views is not None and r == views[0]:
@@ -538,7 +556,8 @@ HARNESSES = [
       desc='.debug_loclists / .debug_rnglists: every DW_LLE / DW_RLE kind with symbolic operands, translated through a symbolic .debug_addr table (startx* / base_addressx, start_length -> '
            '[start, start+length), default location); DW_FORM_loclistx / rnglistx index (symbolic) -> base + offset table entry, base attribute before or after; raw _ex view and translate_v5_entry'),
     H('h7_4_blocks', h_blocks, lambda tier: [dict(little=l, addr=a, loc=lo, blocks=b) for l, a in ENVS[:2] for lo in (True, False)
-                                             for b in ([(False, 1, False)], [(False, 2, True), (True, 1, True)], [(True, 2, False), (False, 0, False), (False, 1, True)])], expect=('ok',),
+                                             for b in ([(False, 1, False)], [(False, 2, True), (True, 1, True)], [(True, 2, False), (False, 0, False), (False, 1, True)])] +
+                                            [dict(little=l, addr=a, loc=lo, blocks=[(False, 2, True), (True, 3, True)], reversed_table=True) for l, a in ENVS[:2] for lo in (True, False)], expect=('ok',),
       desc='unit blocks of the v5 list sections (DWARF32/64, offset_count 0-2, several blocks): iter_CUs headers and offset tables; iter_CU_range_lists_ex yields exactly the lists between the offset table and the block end'),
     H('h7_5_enum', h_enum, lambda tier: [dict(little=l, addr=a, loc=lo, ver=v, refs=r) for l, a in ENVS[:2] for lo in (True, False) for v in (3, 4, 5)
                                          for r in ([0], [2, 0, 2], [1, 2])] +
